@@ -23,6 +23,7 @@ fn main() {
         "env" => h::env::main(mode, rest),
         "rpc" => h::rpc::main(mode, rest),
         "authhq" => h::authhq::main(mode, rest),
+        "query" => h::query::main(mode, rest),
         _ => {
             eprintln!("unknown component {comp}");
             std::process::exit(2);
